@@ -204,10 +204,13 @@ void rd::case_row() {
       case 26: case 27: case 28: case 29: case 30: { // linear_combine, all overloads and representation mixes
         Z c1 = coin(35) ? Z(1) : rand_z(true), c2 = coin(25) ? Z(coin() ? 1 : -1) : rand_z(true); bool ranged = coin(); int mix = rnd(0, 4);
         // the argument: a copy of the other row, brought to the receiver's size (or, rarely, left shorter: asserted-legal for the free functions)
-        bool shorter = !ranged && B.N < N && mix >= 1 && mix <= 3 && coin(15);
+        bool shorter = !ranged && B.N < N && mix >= 1 && mix <= 3 && risky("shorter", 15);
         Sparse_Row ys(B.r); Model my = B.m; dimension_type yn = B.N; if (!shorter) { ys.resize(N); for (Model::iterator q = my.lower_bound(N); q != my.end(); ) my.erase(q++); yn = N; }
         Dense_Row yd(ys);
-        dimension_type s0 = 0, e0 = yn; if (ranged) { s0 = rnd(0, (int) std::min(N, yn)); e0 = rnd(0, (int) std::min(N, yn)); if (s0 > e0) std::swap(s0, e0); }
+        dimension_type s0 = 0, e0 = yn; if (ranged) { s0 = rnd(0, (int) std::min(N, yn)); e0 = rnd(0, (int) std::min(N, yn)); if (s0 > e0) std::swap(s0, e0);
+          // Sparse_Row.cc:585/630/674 assert `i == i_end || j == j_end` after a loop that also stops at i.index() >= end:
+          // a false assertion (debug builds only) whenever the receiver stores something at or after `end`
+          if (assert_safe() && c1 != 1) e0 = N; }
         const char* mixn[5] = { "member_SS", "free_SS", "free_SD", "free_DS_then_copy", "dense_member_then_copy" };
         op = std::string("linear_combine") + (ranged ? "_range." : ".") + mixn[mix]; t << op << "(r" << b << "," << c1 << "," << c2; if (ranged) t << "," << s0 << "," << e0; t << ")" << (shorter ? "[y shorter]" : ""); tr(t.str());
         for (dimension_type k = ranged ? s0 : 0, ke = ranged ? e0 : N; k < ke; ++k) { Z v = val(m, k) * c1 + val(my, k) * c2; if (v != 0 || m.count(k)) m[k] = v; }
@@ -247,7 +250,7 @@ void rd::case_row() {
         dense_from_model(A); break; }
       case 35: { // truncating conversions between the two row types
         dimension_type sz = rnd(1, (int) B.N); bool ds = coin(); op = ds ? "sparse_from_dense_truncated" : "dense_from_sparse_truncated"; t << op << "(r" << b << "," << sz << ")"; tr(t.str());
-        if (ds && !coin((int) hx::opt().geti("truncds", 10))) { hx::count("row.skip.truncds"); op.clear(); break; }
+        if (ds && !risky("truncds", 10)) { hx::count("row.skip.truncds"); op.clear(); break; }
         if (ds) { bool beyond = B.m.lower_bound(sz) != B.m.end() && sz < B.N; Sparse_Row c(B.d, sz, sz + 1); r.m_swap(c); if (beyond) poison() = "truncating-dense-to-sparse"; }
         else { Dense_Row c(B.r, sz, sz + 1); r = c; }
         m = B.m; for (Model::iterator q = m.lower_bound(sz); q != m.end(); ) m.erase(q++); for (Model::iterator q = m.begin(); q != m.end(); ) if (q->second == 0) m.erase(q++); else ++q; A.N = sz; A.exact = false; dense_from_model(A); break; }
